@@ -250,6 +250,18 @@ pub fn v0_case(k: usize) -> VoiceCase {
     VoiceCase { name: if k == 0 { "V0".into() } else { format!("P{}(V0)", k) }, engine: engine_pk(&[k]), nstream: 3, nstate: 5, stage: 0, log_gain: false }
 }
 
+/// partially annotated utterances: an untimed label followed by a timed one, a timed one in the middle,
+/// start-only / end-only stamps, a too-short (infeasible) span followed by a feasible one
+fn partial_timed(l: &[String]) -> Vec<Vec<String>> {
+    let t = |a: f64, b: f64, s: &String| format!("{} {} {}", if a < 0.0 { -1 } else { (a * 1e7) as i64 }, if b < 0.0 { -1 } else { (b * 1e7) as i64 }, s);
+    vec![
+        vec![l[0].clone(), t(0.05, 0.12, &l[1])],
+        vec![t(0.0, 0.05, &l[0]), l[1].clone(), t(0.12, 0.2, &l[2])],
+        vec![l[0].clone(), l[1].clone(), t(-1.0, 0.2, &l[2]), l[3].clone()],
+        vec![t(0.0, -1.0, &l[0]), t(-1.0, 0.09, &l[1]), t(0.09, 0.091, &l[2]), t(0.091, 0.3, &l[3])],
+    ]
+}
+
 fn timed(lines: &[String], bounds_s: &[f64]) -> Vec<String> {
     lines.iter().enumerate().map(|(i, l)| format!("{} {} {}", (bounds_s[i] * 1e7) as i64, (bounds_s[i + 1] * 1e7) as i64, l)).collect()
 }
@@ -277,6 +289,9 @@ pub fn run(tier: Tier) -> i32 {
     gutts.push(Utt::Strs(vec![corpus[1].clone(), String::new(), corpus[2].clone()]));
     gutts.push(Utt::Strs(corpus[100..108].to_vec()));
     gutts.push(Utt::Strs(timed(&corpus[40..43], &[0.0, 0.05, 0.12, 0.2])));
+    for u in partial_timed(&corpus[40..44]) {
+        gutts.push(Utt::Strs(u));
+    }
     let cells_hit = std::sync::Mutex::new(std::collections::BTreeSet::new());
     let load_fail = AtomicU64::new(0);
     par_for(fam.len(), 1, |vi| {
@@ -301,7 +316,7 @@ pub fn run(tier: Tier) -> i32 {
         for (ci, acts) in conds.iter().enumerate() {
             for (ui, u) in gutts.iter().enumerate() {
                 // deeper deviation levels only on the shorter utterances
-                if acts.len() >= 2 && ui > 7 && ui != gutts.len() - 1 {
+                if acts.len() >= 2 && ui > 7 && ui + 5 < gutts.len() {
                     continue;
                 }
                 if acts.len() >= 3 && ui > 2 {
@@ -355,6 +370,8 @@ pub fn run(tier: Tier) -> i32 {
         Utt::Strs(corpus[40..42].to_vec()),
         Utt::Strs(timed(&corpus[40..43], &[0.0, 0.05, 0.12, 0.2])),
         Utt::Typed(vec![s1[3].clone()]),
+        Utt::Strs(partial_timed(&corpus[40..44])[1].clone()),
+        Utt::Strs(partial_timed(&corpus[40..44])[3].clone()),
     ];
     let conds = conditions_upto(3, tier.pick(1, 2));
     let jobs: Vec<(usize, usize)> = (0..conds.len()).flat_map(|c| (0..short.len()).map(move |u| (c, u))).collect();
